@@ -7,6 +7,7 @@
 (* position.  Mismatches are collected (TLC register 1) instead of stopping the run, so  *)
 (* one run judges the whole batch.  Needs -workers 1.                                    *)
 EXTENDS JsonText, Json
+CONSTANT MaxBad        \* at most this many deviation records are kept per run (all are counted)
 CONSTANT Mode          \* "c01": accept/reject only; "c09": positions of rejected inputs only
 
 Trace == ndJsonDeserialize("trace.ndjson")
@@ -15,17 +16,21 @@ N == Len(Trace)
 VARIABLES c,       \* case being consumed
           i,       \* next byte of the case
           errAt,   \* index of the byte on which the specification entered Err (0 = none)
-          pre      \* state before that byte
-tvars == <<st, hist, c, i, errAt, pre>>
+          pre,     \* state before that byte
+          ln,      \* current line (1-based): 1 + newlines consumed so far
+          nl       \* index of the last newline consumed (0 = none)
+tvars == <<st, hist, c, i, errAt, pre, ln, nl>>
 
-TraceInit == /\ st = S0 /\ hist = <<>> /\ c = 1 /\ i = 1 /\ errAt = 0 /\ pre = S0
-             /\ TLCSet(1, <<>>) /\ TLCSet(2, 0)
+TraceInit == /\ st = S0 /\ hist = <<>> /\ c = 1 /\ i = 1 /\ errAt = 0 /\ pre = S0 /\ ln = 1 /\ nl = 0
+             /\ TLCSet(1, <<>>) /\ TLCSet(2, 0) /\ TLCSet(3, 0)
 
 TFeed == /\ c <= N /\ i <= Len(Trace[c].b) /\ ~Dead(st)
          /\ LET b == Trace[c].b[i] IN
             /\ st' = Step(st, b)
             /\ errAt' = IF Dead(Step(st, b)) THEN i ELSE 0
             /\ pre' = st
+            /\ ln' = IF b = 10 /\ ~Dead(Step(st, b)) THEN ln + 1 ELSE ln
+            /\ nl' = IF b = 10 /\ ~Dead(Step(st, b)) THEN i ELSE nl
          /\ i' = i + 1 /\ UNCHANGED <<hist, c>>
 
 Bytes == Trace[c].b
@@ -34,8 +39,10 @@ Silent == Len(Bytes) >= 3 /\ SubSeq(Bytes, 1, 3) = <<239, 187, 191>> /\ ~Dead(st
 Expect == IF Accepts(st) THEN 1 ELSE 0
 \* the specification transition at which the input is rejected
 RejLocus == IF errAt > 0 THEN <<pre.pc, Rep(Bytes[errAt]), TopOf(pre)>> ELSE <<st.pc, -1, TopOf(st)>>
-ExpLine == IF errAt > 0 THEN LineOf(Bytes, errAt) ELSE LineOf(Bytes, Len(Bytes) + 1)
-ExpCol  == IF errAt > 0 THEN ColOf(Bytes, errAt) ELSE ColOf(Bytes, Len(Bytes) + 1)
+\* position of the offending byte (or just past the end): lines end at \n, columns count bytes (= LineOf/ColOf of JsonText,
+\* maintained incrementally by TFeed)
+ExpLine == ln
+ExpCol  == (IF errAt > 0 THEN errAt ELSE Len(Bytes) + 1) - nl
 HasBom  == Len(Bytes) >= 1 /\ Bytes[1] = 239
 
 BadC01(g) == IF g.r = 2 THEN [i |-> c, as |-> g.as, kind |-> "panic", loc |-> RejLocus, m |-> g.m]
@@ -51,11 +58,13 @@ JudgeC09 == IF Expect = 1 \/ HasBom THEN <<>>
                                          nl |-> ExpLine > 1]]
 
 TEnd == /\ c <= N /\ (i > Len(Trace[c].b) \/ Dead(st))
-        /\ c' = c + 1 /\ i' = 1 /\ st' = S0 /\ errAt' = 0 /\ pre' = S0 /\ UNCHANGED hist
-        /\ TLCSet(1, TLCGet(1) \o (IF Mode = "c01" THEN JudgeC01 ELSE JudgeC09))
+        /\ c' = c + 1 /\ i' = 1 /\ st' = S0 /\ errAt' = 0 /\ pre' = S0 /\ ln' = 1 /\ nl' = 0 /\ UNCHANGED hist
+        /\ LET j == IF Mode = "c01" THEN JudgeC01 ELSE JudgeC09 IN
+           /\ (j = <<>> \/ Len(TLCGet(1)) >= MaxBad \/ TLCSet(1, TLCGet(1) \o j))
+           /\ (j = <<>> \/ TLCSet(3, TLCGet(3) + Len(j)))
         /\ TLCSet(2, c)
 
 TraceNext == TFeed \/ TEnd
 TraceSpec == TraceInit /\ [][TraceNext]_tvars
-Post == JsonSerialize("out.json", [n |-> TLCGet(2), bad |-> TLCGet(1), hits |-> [x \in {} |-> 0]])
+Post == JsonSerialize("out.json", [n |-> TLCGet(2), bad |-> TLCGet(1), nbad |-> TLCGet(3), hits |-> [x \in {} |-> 0]])
 =============================================================================
